@@ -637,6 +637,10 @@ def run(prog, rep, tier):
     r06_9(prog, rep)
     r06_10(prog, rep)
     r06_11(prog, rep)
+    # "every archive produced by an independent implementation is read identically": the compression reader lands on the requested position from the
+    # position alone -- seek(Start) rebuilds its state and repositions the inner reader (= R10.2 on the compression layer)
+    from .c10 import r10_2
+    r10_2(prog, rep, 'R06.12', adts=('layers::compress::CompressionLayerReader',))
 
 
 def r06_11(prog, rep):
